@@ -31,6 +31,9 @@ def run(ck):
     from rules.c09 import next_index, name_scheme
     next_index(ck, S, "C07-O4")
     name_scheme(ck, S, "C07-O4")      # ... and the scan sees the names the writer produces
+    # ... over a listing that leaves no rotated file out (anchored, escaped pattern; no wildcard name filter built from the file name)
+    from rules.c06 import name_pattern
+    name_pattern(ck, S, S.m["findNextIndexForDate"], "C07-O4", date_is_class=False)
     # ... and what is moved away is the file the sink writes to (its own name, placeholders expanded), under the generated name
     from rules.c05 import allowed_destructive
     rt_ = S.m["rotate"]
@@ -74,7 +77,7 @@ def run(ck):
     def enc_len(n, fn):
         """encoded length of the record: <fn's message parameter>.formattedMessage().toUtf8().size()"""
         if is_call(n, ("QByteArray::size", "QByteArray::length", "QByteArray::count")):
-            o = skip_copies(skip_copies(n).get("obj"))
+            o = skip_copies(deref_local(fn, skip_copies(n).get("obj")))
             if is_call(o, ("QString::toUtf8", "QString::toLocal8Bit")) and is_call(o.get("obj"), LM + "::formattedMessage") and obj_is_param(skip_copies(o["obj"]), fn, 0):
                 return True
         return False
@@ -112,8 +115,18 @@ def run(ck):
     ck.require(len(calls) == 1, "rotateIfNeeded calls checkSizeRotation %d times" % len(calls))
     arg = deref_local(ri, calls[0]["args"][0])
 
+    argfn = ri
+    a0 = skip_copies(arg) if isinstance(arg, dict) else None
+    if isinstance(a0, dict) and a0.get("k") == "ref" and a0.get("dk") == "param" and not by_message:
+        # the size is measured by the caller (send() encodes the record once and passes its length): follow the parameter
+        idx = [i_ for i_, p_ in enumerate(ri.params) if p_.get("decl") == a0.get("decl")]
+        cl = [c_ for c_ in S.calls_to(S.send, "rotateIfNeeded")]
+        if idx and len(cl) == 1 and len(cl[0].get("args", [])) > idx[0]:
+            arg = deref_local(S.send, cl[0]["args"][idx[0]])
+            argfn = S.send
+
     def lensym(n):
-        return "len" if enc_len(n, ri) else None
+        return "len" if enc_len(n, argfn) else None
     if by_message:
         okm = is_ref_to(arg, ri.params[0]["decl"])
         ck.ob("C07-O1", sitestr(ri, calls[0]), okm, "the size check is given the record that is about to be written" if okm else "the size check is given %s" % describe(arg), key="rotateIfNeeded|added-size-source")
@@ -175,9 +188,12 @@ def run(ck):
     snd = S.send
     gs = S.g(snd)
     rcall = [n for n in S.calls_to(snd, "rotateIfNeeded")]
-    wcall = [n for n in snd.calls() if name_is(n.get("callee"), ("send",)) and n.get("qualified")]
-    ok = len(rcall) == 1 and len(wcall) == 1 and gs.dominated(gs.site_of(wcall[0]), {gs.site_of(rcall[0])})
-    ck.ob("C07-O3", sitestr(snd), ok, "the check precedes the write of the record" if ok else "the record is written before the size check", key="send|check-after-write")
+    wcall = S.record_writes(snd)
+    if len(rcall) == 1 and len(wcall) >= 1:
+        ok = all(gs.dominated(gs.site_of(w_), {gs.site_of(rcall[0])}) for w_ in wcall)
+        ck.ob("C07-O3", sitestr(snd), ok, "the check precedes the write of the record" if ok else "the record is written before the size check", key="send|check-after-write")
+    else:
+        ck.ob("C07-O3", sitestr(snd), None, "send(): %d calls of rotateIfNeeded, %d writes of the record found" % (len(rcall), len(wcall)), key="send|check-after-write")
     # what is measured is what is written: the write site adds nothing but the one newline to the encoded text
     ck.rule("C07-O5", "bytes written per record = encode(formattedMessage()) + one newline, the quantity rotateIfNeeded measures (no padding, indentation, prefix or re-encoding at the write site)")
     from rules.c05 import record_framing
